@@ -17,6 +17,7 @@ RULE = ("seeded placements of one constraint (Pin, ExactlyK, AtLeastKInARow, Exa
 ASSUMPTIONS = ["reference window semantics (sim/refsem.py B.5/B.6) reads the documentation correctly"]
 BUDGET = {"quick": 300, "thorough": 900}
 RUNS = {"quick": 1500, "thorough": 60000}
+THOROUGH_RUNS = 3600        # the thorough tier of this (expensive) check: a fixed range sized to stay within ~15 minutes
 KINDS = ["pin", "exactlyk", "atleast", "exactlyrow", "atmost"]
 
 
